@@ -265,6 +265,18 @@ Proof.
         - inversion Hx; subst. auto using ext_refl. }
       destruct (K _ _ _ _ W H1) as (E1 & W1). destruct (K _ _ _ _ W1 H2) as (E2 & W2).
       splits; auto; [|discriminate]. eapply ext_trans; eauto.
+    + (* SUnsetWild *)
+      inversion H; subst. destruct (set_hdrs_good (hdel_wild o0 pre (hdrs σ)) σ W) as (E2 & W2).
+      splits; auto. discriminate.
+    + (* SSynthetic *)
+      bind_inv H as [r σ1] H1.
+      destruct (IHe dflt_mode _ _ _ _ W H1) as (E1 & L1 & W1 & G1).
+      destruct (lookup gb (globals σ1)) as [l|] eqn:El; [|discriminate].
+      bind_inv H as σ2 H2. inversion H; subst.
+      destruct (assign_cell_good Os WLG false l AEq r σ1 σ' W1) as (E2 & W2 & _); auto.
+      { right. exists gb. exact El. }
+      splits; auto; [|discriminate].
+      eapply ext_trans; [|exact E2]. eapply ext_weaken; [|exact E1]. apply wle_wmb_lg.
     + (* SSwitch *)
       bind_inv H as [lc σ1] H1. bind_inv H as vc Hvc.
       bind_inv H as [r σ3] H3. bind_inv H as [o4 σ4] H4. inversion H; subst.
